@@ -141,6 +141,24 @@ type c15Run struct {
 	pk, alpha []byte
 	beta      []byte // output of the first accepted proof for (pk, alpha): the honest Prove
 	evaluated int    // altered or Byzantine tuples that were evaluated
+	// outputs exactly as returned (not copied) next to a private copy taken at once: callers keep
+	// outputs; a later call must not change one that was handed out earlier
+	kept [][2][]byte
+}
+
+func (c *c15Run) keep(b []byte) {
+	if b != nil {
+		c.kept = append(c.kept, [2][]byte{b, clone(b)})
+	}
+}
+
+func (c *c15Run) checkKept() {
+	for _, k := range c.kept {
+		if !bytes.Equal(k[0], k[1]) && len(c.r.Main.Fails()) == 0 {
+			c.r.Fail("exactness", "returned-output-changed-later", "an output returned by Verify / ProofToHash (%x) was changed by a later call (now %x): returned values share memory with library state", k[1], k[0])
+			return
+		}
+	}
 }
 
 func c15fmtName(v10 bool) string {
@@ -197,6 +215,7 @@ func (c *c15Run) deliver(label string, v10 bool, pk, pi, alpha []byte) (accepted
 		r.Ev("%s: %s panicked (%.60s); case skipped, panics on bytes belong to C19", label, c15fmtName(v10), pmsg)
 		return false, false
 	}
+	c.keep(beta)
 	mok, mbeta, why := model.ECVRFVerify(pk, pi, alpha, v10)
 	r.Count(c15modelVerify)
 	r.Ev("%s: %s(pk=%s pi=%s alpha=%s) -> %v %s; model %v %s", label, c15fmtName(v10), core.Hex8(pk), core.Hex8(pi), core.Hex8(alpha), ok, core.Hex8(beta), mok, why)
@@ -213,6 +232,7 @@ func (c *c15Run) deliver(label string, v10 bool, pk, pi, alpha []byte) (accepted
 	if hpan {
 		r.Count(c15panicSkip)
 	} else {
+		c.keep(hb)
 		mhb, mwhy := model.ECVRFProofToHash(pi)
 		r.Count(c15modelP2H)
 		switch {
@@ -300,6 +320,7 @@ func runC15(e *Env, r *core.Run) {
 	c.sk = ed25519.PrivateKey(pg.Part(0))
 	c.pk = clone(c.sk[32:])
 	c.alpha = pg.Part(1)
+	defer c.checkKept()
 	defer func() {
 		if !pg.Intact() && len(r.Main.Fails()) == 0 {
 			r.Fail("caller-memory", "caller-buffer-modified", "the buffer holding the caller's private key and input string (key | gap | input | guard) was modified by the ECVRF entry points")
